@@ -74,7 +74,7 @@ package keeper
 //@   let lrate = k.GetLendAPRByAssetIDAndPoolID(ctx, l0.PoolID, l0.AssetID).0
 //@   let tr0 = ite(k.GetLendRewardTracker(ctx, ID).1, k.GetLendRewardTracker(ctx, ID).0.RewardsAccumulated, 0)
 //@   letpost tr1 = k.GetLendRewardTracker(ctx, ID).0.RewardsAccumulated
-//@   ensures [C18] #c18-lend-reward-accrues-on-amount-lent: result1 == nil && lf0 && l0.GlobalIndex > 0 && lsecs >= 0 && blocktime() >= 0 && blocktime() <= pow2(62) && l0.LastInteractionTime >= 0 && l0.LastInteractionTime <= pow2(62) && (k.GetLendRewardTracker(ctx, ID).1 ==> k.GetLendRewardTracker(ctx, ID).0.LendingId == ID) ==> tr1 + ONE * (l1.AvailableToBorrow - l0.AvailableToBorrow) == tr0 + indexAccrual(l0.AmountIn.Amount * ONE, lrate, l0.GlobalIndex, lsecs)
+//@   ensures [C18] slow #c18-lend-reward-accrues-on-amount-lent: result1 == nil && lf0 && l0.GlobalIndex > 0 && lsecs >= 0 && blocktime() >= 0 && blocktime() <= pow2(62) && l0.LastInteractionTime >= 0 && l0.LastInteractionTime <= pow2(62) && (k.GetLendRewardTracker(ctx, ID).1 ==> k.GetLendRewardTracker(ctx, ID).0.LendingId == ID) ==> tr1 + ONE * (l1.AvailableToBorrow - l0.AvailableToBorrow) == tr0 + indexAccrual(l0.AmountIn.Amount * ONE, lrate, l0.GlobalIndex, lsecs)
 
 // ---- interest-rate model (C18) ----
 // The borrow rate equals the two-segment spec function of the pool utilisation u (18-digit fixed point):
@@ -241,7 +241,7 @@ package keeper
 //@   let pr0 = k.GetLendPair(ctx, b0.PairID).0
 //@   let vrate = k.GetBorrowAPRByAssetID(ctx, pr0.AssetOutPoolID, pr0.AssetOut, false).0
 //@   ensures [C18] #c18-stable-accrues-on-principal: result2 == nil && bf0 && b0.IsStableBorrow && blocktime() >= 0 && blocktime() <= pow2(62) && b0.LastInteractionTime >= 0 && b0.LastInteractionTime <= pow2(62) ==> b1.InterestAccumulated == b0.InterestAccumulated + decMul(decMul(b0.AmountOut.Amount * ONE, b0.StableBorrowRate), years(secs))
-//@   ensures [C18] #c18-variable-accrues-on-principal: result2 == nil && bf0 && !b0.IsStableBorrow && b0.GlobalIndex > 0 && b0.ReserveGlobalIndex > 0 && blocktime() >= 0 && blocktime() <= pow2(62) && b0.LastInteractionTime >= 0 && b0.LastInteractionTime <= pow2(62) ==> b1.InterestAccumulated == b0.InterestAccumulated + indexAccrual(b0.AmountOut.Amount * ONE, vrate, b0.GlobalIndex, secs)
+//@   ensures [C18] slow #c18-variable-accrues-on-principal: result2 == nil && bf0 && !b0.IsStableBorrow && b0.GlobalIndex > 0 && b0.ReserveGlobalIndex > 0 && blocktime() >= 0 && blocktime() <= pow2(62) && b0.LastInteractionTime >= 0 && b0.LastInteractionTime <= pow2(62) ==> b1.InterestAccumulated == b0.InterestAccumulated + indexAccrual(b0.AmountOut.Amount * ONE, vrate, b0.GlobalIndex, secs)
 
 // Partial repayment (C08): the payer pays exactly the payment; whatever part of it retires principal lowers the published
 // borrowed total of the borrowed asset by the same amount (pool total minus this position's principal does not move); never
